@@ -640,6 +640,72 @@ class _AliasSubst(ast.NodeTransformer):
         return n
 
 
+TUPLES_FILE = os.path.join(os.path.dirname(os.path.abspath(__file__)), 'known_tuple_assigns.txt')
+
+
+def tuple_assigns(model) -> list[str]:  # noqa: ANN001
+    out = []
+    for q, fi in model.funcs.items():
+        if isinstance(fi.node, ast.Lambda):
+            continue
+        for st in _walk_own(fi.node):
+            if isinstance(st, ast.Assign) and len(st.targets) == 1 and isinstance(st.targets[0], ast.Tuple) and isinstance(st.value, ast.Tuple):
+                out.append('%s\t%s' % (q.split('#')[0], ast.unparse(st)))
+    return sorted(set(out))
+
+
+def load_known_tuple_assigns() -> set[str]:
+    if not os.path.exists(TUPLES_FILE):
+        return set()
+    with open(TUPLES_FILE) as fh:
+        return {l.rstrip('\n') for l in fh if l.strip() and not l.startswith('#')}
+
+
+def split_tuple_assigns(model) -> int:  # noqa: ANN001
+    """`a, b = x, y` is written out as `a = x; b = y` when that means the same: no later right-hand side reads an earlier
+    target (so not for swaps).  `self.previous, self.current = self.current, {}` then shows the two stores the rules know."""
+    n = 0
+    current = ['']
+    known: set[str] = set()
+
+    def reads(e: ast.AST) -> set[str]:
+        return {ast.unparse(x) for x in ast.walk(e) if isinstance(x, (ast.Name, ast.Attribute, ast.Subscript))}
+
+    def split(body: list[ast.stmt]) -> list[ast.stmt]:
+        nonlocal n
+        out: list[ast.stmt] = []
+        for st in body:
+            for f in ('body', 'orelse', 'finalbody'):
+                if hasattr(st, f) and isinstance(getattr(st, f), list) and not isinstance(st, (ast.FunctionDef, ast.AsyncFunctionDef, ast.ClassDef)):
+                    setattr(st, f, split(getattr(st, f)))
+            if isinstance(st, ast.Try):
+                for h in st.handlers:
+                    h.body = split(h.body)
+            if isinstance(st, ast.Assign) and len(st.targets) == 1 and isinstance(st.targets[0], ast.Tuple) and isinstance(st.value, ast.Tuple) and len(st.targets[0].elts) == len(st.value.elts) and not any(isinstance(x, ast.Starred) for x in st.targets[0].elts + st.value.elts):
+                tgs, vals = st.targets[0].elts, st.value.elts
+                safe = all(ast.unparse(tgs[i]) not in reads(vals[j]) and not any(ast.unparse(tgs[i]) == r or r.startswith(ast.unparse(tgs[i]) + '.') or r.startswith(ast.unparse(tgs[i]) + '[') for r in reads(vals[j])) for i in range(len(tgs)) for j in range(i + 1, len(tgs)))
+                # calls on the right-hand side keep their order either way; a target that is itself read by an earlier
+                # value is fine (it is assigned after)
+                # as for helpers and constant locals, only what is not on the confirmed tree is rewritten
+                if safe and '%s\t%s' % (current[0], ast.unparse(st)) not in known:
+                    for t_, v_ in zip(tgs, vals):
+                        a = ast.Assign(targets=[t_], value=v_, type_comment=None)
+                        ast.copy_location(a, st)
+                        out.append(a)
+                    n += 1
+                    continue
+            out.append(st)
+        return out
+
+    known = load_known_tuple_assigns()
+    for q, fi in model.funcs.items():
+        if isinstance(fi.node, ast.Lambda):
+            continue
+        current[0] = q.split('#')[0]
+        fi.node.body = split(fi.node.body)
+    return n
+
+
 def propagate_aliases(model) -> list[str]:  # noqa: ANN001
     """a local that merely names a constant, and did not exist on the confirmed tree (sa/known_aliases.txt), is replaced
     by the constant wherever it is read: hoisting `Capability.CODE.X` into a local changes nothing a rule should see"""
@@ -664,9 +730,10 @@ def apply(model) -> dict:  # noqa: ANN001
     if known is None:
         return {'enabled': False, 'reason': 'sa/known_funcs.txt missing'}
     inl = Inliner(model, known)
+    n_split = split_tuple_assigns(model)
     aliases = propagate_aliases(model)
     if not inl.unknown:
-        return {'enabled': True, 'unknown_functions': 0, 'inlined': [], 'constant_aliases': aliases}
+        return {'enabled': True, 'unknown_functions': 0, 'inlined': [], 'constant_aliases': aliases, 'tuple_assignments_split': n_split}
     for q, fi in list(model.funcs.items()):
         try:
             inl.expand(fi)
@@ -692,4 +759,4 @@ def apply(model) -> dict:  # noqa: ANN001
                 u.cls.methods.pop(nm, None)
             else:
                 u.module.functions.pop(nm, None)
-    return {'enabled': True, 'unknown_functions': len(inl.unknown), 'unknown': sorted(inl.unknown)[:40], 'inlined': inl.inlined[:80], 'not_inlined': inl.skipped[:40], 'removed': removed, 'constant_aliases': aliases + propagate_aliases(model)}
+    return {'enabled': True, 'unknown_functions': len(inl.unknown), 'unknown': sorted(inl.unknown)[:40], 'inlined': inl.inlined[:80], 'not_inlined': inl.skipped[:40], 'removed': removed, 'constant_aliases': aliases + propagate_aliases(model), 'tuple_assignments_split': n_split + split_tuple_assigns(model)}
